@@ -234,12 +234,12 @@ func c20Extra(c *Ctx) {
 		c20Check(c, "ValidRune", []byte(fmt.Sprint(rr)), nil, 0, rr >= 0 && rr < 0x80, func() bool { return ascii.ValidRune(rr) })
 		c20Check(c, "ValidPrintRune", []byte(fmt.Sprint(rr)), nil, 0, rr >= 0x20 && rr <= 0x7e, func() bool { return ascii.ValidPrintRune(rr) })
 	}
-	// every (length, position, byte) single deviation up to 272 for the validity predicates
-	step := 1
-	if c.Tier != "thorough" {
-		step = 5
-	}
-	for n := 0; n <= 272; n += step {
+	// every (length, position, byte) single deviation for the validity predicates, bytes and string variants:
+	// every length up to 80, then every fifth (thorough: every) up to 272
+	for n := 0; n <= 272; n++ {
+		if n > 80 && c.Tier != "thorough" && n%5 != 0 {
+			continue
+		}
 		for pos := 0; pos < n; pos++ {
 			for _, x := range []byte{0x00, 0x1f, 0x7f, 0x80, 0xff} {
 				s := make([]byte, n)
@@ -249,8 +249,38 @@ func c20Extra(c *Ctx) {
 				s[pos] = x
 				off := (n + pos) % 64
 				p := place(s, off)
+				ps := string(p)
 				c20Check(c, "Valid", s, nil, off, x < 0x80, func() bool { return ascii.Valid(p) })
 				c20Check(c, "ValidPrint", s, nil, off, false, func() bool { return ascii.ValidPrint(p) })
+				c20Check(c, "ValidString", s, nil, off, x < 0x80, func() bool { return ascii.ValidString(ps) })
+				c20Check(c, "ValidPrintString", s, nil, off, false, func() bool { return ascii.ValidPrintString(ps) })
+			}
+		}
+		c.Case()
+	}
+	// the fold family: one position differs, by case only (equal) or by 0x20 between non-letters (not equal)
+	for n := 1; n <= 80; n++ {
+		for pos := 0; pos < n; pos++ {
+			for _, pr := range [][2]byte{{'a', 'A'}, {'Z', 'z'}, {'@', '`'}, {'[', '{'}, {'a', 'b'}} {
+				a, b := make([]byte, n), make([]byte, n)
+				for i := range a {
+					a[i], b[i] = 'q', 'Q'
+				}
+				a[pos], b[pos] = pr[0], pr[1]
+				off := (n*3 + pos) % 64
+				pa, pb := placeIn(a, off, 0xff), placeIn(b, (off*7+3)%64, 0x80)
+				sa, sb := string(pa), string(pb)
+				want := defEq(a, b)
+				c20Check(c, "EqualFold", a, b, off, want, func() bool { return ascii.EqualFold(pa, pb) })
+				c20Check(c, "EqualFoldString", a, b, off, want, func() bool { return ascii.EqualFoldString(sa, sb) })
+				// as prefix and suffix of a longer string
+				long := append(append([]byte("xy"), a...), "zw"...)
+				pl := placeIn(long, (off+5)%64, 0xff)
+				sl := string(pl)
+				c20Check(c, "HasPrefixFold", long[2:], b, off, want, func() bool { return ascii.HasPrefixFold(pl[2:], pb) })
+				c20Check(c, "HasPrefixFoldString", long[2:], b, off, want, func() bool { return ascii.HasPrefixFoldString(sl[2:], sb) })
+				c20Check(c, "HasSuffixFold", long[:len(long)-2], b, off, want, func() bool { return ascii.HasSuffixFold(pl[:len(pl)-2], pb) })
+				c20Check(c, "HasSuffixFoldString", long[:len(long)-2], b, off, want, func() bool { return ascii.HasSuffixFoldString(sl[:len(sl)-2], sb) })
 			}
 		}
 		c.Case()
